@@ -52,7 +52,7 @@ STATE_KINDS = ("st_set", "st_get", "st_get_state", "st_set_state", "st_clear", "
 
 def plan(tier, seed):
     n = 16 if tier == "quick" else 64
-    per = 160 if tier == "quick" else 2000
+    per = 160 if tier == "quick" else 1000
     return [{"seed": seed * 1000 + i, "n": per} for i in range(n)]
 
 
